@@ -362,11 +362,11 @@ def handleOldStyle (c : Ctx) (s : State) (n : Name) (w : Wrap) (inBlock : Bool) 
   else .ok (handleModuleVar s n none (some .call) inBlock)
 
 /-- `name.__doc__ = "text"` at module or class level: `_handleDocstringUpdate`.  The target is looked up by
-name (`node2fullname` + `objForFullName`; generated names resolve in the scope itself or not at all); the string
-is stored as it is — NOT cleaned (`obj.docstring = docstring`). -/
+name (`node2fullname` + `objForFullName`; generated names resolve in the scope itself or not at all); since 6e624d0
+the string is cleaned like a docstring literal (`obj.docstring = inspect.cleandoc(docstring)`). -/
 def handleDocAssign (s : State) (n : Name) (text : List Char) : State :=
   match lookup s.contents n with
-  | some _ => { s with contents := upd s.contents n (fun o => { o with doc := some text }) }
+  | some _ => { s with contents := upd s.contents n (fun o => { o with doc := some (cleandoc text) }) }
   | none => s            -- "Unable to figure out target for __doc__ assignment": a warning, nothing else
 
 /-! ## definitions -/
@@ -789,9 +789,9 @@ def checkStmt (c : Ctx) (sn : Seen) : Stmt → Option Seen
     if c.inClass && sn.plain.contains n then
       some { sn with plain := sn.plain.filter (· != n), docable := sn.docable.filter (· != n) } else none
   | .delName _ => none
-  | .docAssign n t =>
-    -- the assigned string is stored uncleaned: the two sides agree when cleaning does not change it
-    if sn.docable.contains n && Lineno.cleandoc t == t then some sn else none
+  | .docAssign n _ =>
+    -- the target must be a plain function or a class of this namespace (an object whose `__doc__` CPython lets one assign)
+    if sn.docable.contains n then some sn else none
   | .other => some sn
 def checkList (c : Ctx) (sn : Seen) : List Stmt → Option Seen
   | [] => some sn
